@@ -308,7 +308,7 @@ func RunOn(t *rapid.T, opt Options, cfg bs.Config, mode string, g1, g2 []int) *R
 	}
 	fam := rapid.SampledFrom(fams).Draw(t, "family")
 	bz, hon := byzSet(cfg)
-	if len(bz) == 0 && (fam == "F2" || fam == "F3" || fam == "F6") {
+	if len(bz) == 0 && (fam == "F2" || fam == "F3" || fam == "F6" || fam == "F7") {
 		fam = "F4"
 	}
 	if mode == "boundary" && fam != "F3" && rapid.IntRange(0, 2).Draw(t, "boundaryF6") > 0 {
@@ -404,6 +404,8 @@ func RunOn(t *rapid.T, opt Options, cfg bs.Config, mode string, g1, g2 []int) *R
 		g.famPartialCommit()
 	case "F5":
 		g.famReplay()
+	case "F7":
+		g.famConflictingLocks()
 	}
 	if opt.ExtraPartition && !g.done() {
 		switch rapid.IntRange(0, 3).Draw(t, "extra") {
@@ -1275,6 +1277,22 @@ func (g *gen) famPartialCommit() {
 			g.clean(false)
 		}
 		g.maybeBump(6)
+	}
+}
+
+// F7 (used by C15): correct replicas end up locked on different blocks at different views - a few lock X in a correct
+// leader's round, then, cut off from them, the others (Byzantine validators taking part) lock a fresh Y in a later round.
+func (g *gen) famConflictingLocks() {
+	for i := rapid.IntRange(0, 1).Draw(g.t, "pre"); i > 0 && !g.done(); i-- {
+		g.lossy()
+	}
+	g.lockRoundN(false, true)
+	if !g.done() && !g.secondLock() {
+		g.class("second-lock-not-possible")
+	}
+	g.maybeBump(4)
+	if rapid.Bool().Draw(g.t, "afterPartition") && !g.done() {
+		g.partition()
 	}
 }
 
